@@ -1,7 +1,7 @@
 (* C19  Batch operations equal their item-by-item decomposition. *)
 From Coq Require Import List Bool.
 From Minidyn Require Import Base.Str Base.FMap Base.Outcome Model.Value Model.Key Model.Index Model.Table Model.Client.
-From Minidyn Require Import Proofs.Batch.
+From Minidyn Require Import Proofs.Batch Proofs.BatchClosure Proofs.BatchAtomic.
 Import ListNotations.
 
 (* a batch whose requests all succeed leaves exactly the state of the single PutItem/DeleteItem calls applied in order,
@@ -38,3 +38,26 @@ Theorem C19_batch_get_invalid_rejected :
     c_failure c = None -> batch_get_errors c reqs opts = e :: es ->
     batch_get V2 c reqs opts = (c, {| o_res := RErr e; o_pay := PAlt (e :: es); o_fired := [] |}).
 Proof. exact batch_get_invalid_rejected. Qed.
+
+(* THE first sentence of the property, with no hypothesis on the requests or on the state: a BatchWriteItem that answers
+   success with nothing unprocessed has left exactly the client that performing its put and delete requests individually,
+   in order, across all its tables, leaves - and each of those individual requests succeeds in the state it meets *)
+Theorem C19_successful_batch_is_its_decomposition :
+  forall lm s c reqs c',
+    batch_write lm s c reqs = (c', ok_obs (PBatchWrite []) []) ->
+    c' = fold_left (fun c tr => fold_left (fun c r => fst (single lm s c (fst tr) r)) (snd tr) c) reqs c /\
+    each_table_ok lm s c reqs.
+Proof. exact successful_batch_is_its_decomposition. Qed.
+
+(* ... and which batches succeed is decided up front: in any client of any history, with no failure emulated, a batch of
+   well-formed requests within the limit whose tables exist and whose keys and index keys are valid (exactly what the
+   validation in front of the loop looks at) succeeds with nothing unprocessed - no request of it can fail any more *)
+Theorem C19_validated_batch_succeeds :
+  forall lm lu s ops cn c reqs,
+    lookup cn (fst (run lm lu s [] ops)) = Some c ->
+    c_failure c = None -> (forall tn, In tn (keys reqs) -> v1_name_ok s tn = true) ->
+    (s = V1 -> reqs <> []) ->
+    forallb wreq_ok (flat_map snd reqs) = true -> Nat.ltb batch_limit (List.length (flat_map snd reqs)) = false ->
+    flat_map (prevalidate_table c) reqs = [] ->
+    exists c1, batch_write lm s c reqs = (c1, ok_obs (PBatchWrite []) []).
+Proof. exact validated_batch_succeeds_reachable. Qed.
